@@ -31,11 +31,13 @@ THEOREMS = [
     "Verif.C20.motion_blur_le",
     "Verif.C20.motion_blur_nonneg",
     "Verif.C20.hydro_bulk_pos",
+    "Verif.C20.passive_lorentzian_pos",
     "Verif.C20.faxen_gt_one",
     "Verif.C20.faxen_antitone_in_distance",
     "Verif.C20.faxen_tends_to_one",
     "Verif.C20.brenner_gt_one",
     "Verif.C20.brenner_ge_faxen",
+    "Verif.C20.brenner_antitone_in_distance",
     "Verif.C20.brenner_tends_to_one",
     "Verif.C20.goldman_in_unit_interval",
     "Verif.C20.goldman_tends_to_one",
@@ -49,8 +51,9 @@ THEOREMS = [
 RULE = (
     "corpus (reference points, boundary inputs) + fixed dense log-spaced grids over the property's domain (f 0.1 Hz-100 kHz, "
     "radii 0.1-4 um, distances from the validity limit (R for Faxen/Brenner with a 1e-3 margin, 1.5R for the hydrodynamic "
-    "model) to 1e3 R, T over each model's range, molality 0-6 mol/kg (molarity 0-5.3 M), 0.1-35 MPa, separations from contact "
-    "to 100 diameters) + seeded log-uniform random points with boundary bias (exact range ends, f=0, x=R/h=1, d=2R) + a "
+    "model) to 1e3 R, T over each model's range, molality 0-5.9 mol/kg (molarity 0-5.25 M), 0.1-35 MPa, separations from contact "
+    "to 100 diameters) + seeded log-uniform random points with boundary bias (exact range ends, f=0, R/h=1 for Faxen, l=1.5R, "
+    "bead gap down to 1e-6 R; touching beads only as the F9 corpus inputs) + a "
     "malformed stream (PassiveCalibrationModel arguments, temperatures/pressures/molalities outside the validity ranges, "
     "overlapping beads) whose only oracle is 'the documented error, never data'. Non-trivial: the case evaluates a formula "
     "inside its validity domain (not an error case) and, for wall/coupling corrections, at R/h or R/d >= 1e-3 (where the "
@@ -64,8 +67,10 @@ TRUSTED = [
     "scipy.optimize.brentq (molarity -> molality) is not modelled: the model takes the molality; the round trip is explored",
 ]
 ASSUMPTIONS = [
-    "frequency ratio f/f_nu >= 0 (np.sqrt of a complex number with zero imaginary part and non-negative real part is the real root)",
+    "np.sqrt of the complex number r+0i is the principal root: real for r >= 0, +i sqrt(-r) for r < 0 (negative frequencies are reached through aliasing only); the hydrodynamic theorems are stated for f >= 0",
     "Brenner factor: distances h >= R(1+1e-3) in generated cases (the denominator vanishes at h = R; cancellation amplifies rounding by 1/(1-R/h))",
+    "bead-bead separations d >= 2R(1+1e-6) in generated cases (closer: open finding F9, corpus only)",
+    "molality <= 5.9 mol/kg (5.25 M) in generated cases: at the model's edge m = 6 the brentq round trip lands a rounding error outside the validity check",
     "Stimson-Jeffery series, 2-D coupling, equipartition of the hydrodynamic spectrum, monotonicity of the salt models: explored by the oracle only (no theorem)",
 ]
 
@@ -618,7 +623,7 @@ def oracle(case, ia):
         g = o_drag(c["f"], c["gamma0"], c["rho"], c["R"], c["l"])
         re, im = vals[0]
         if abs(complex(re, im) - g) > 1e-9 * abs(g):
-            return f"complex-drag-equation (D4/D6): got {re!r}{im:+r}j, expected {g!r}"
+            return f"complex-drag-equation (D4/D6): got {complex(re, im)!r}, expected {g!r}"
         if not re > 0:
             return f"complex-drag: real part (dissipation) not positive: {re!r}"
         return None
@@ -976,9 +981,8 @@ def corpus():
     yield {"stream": "corpus", "op": "wall", "R": 0.5e-6, "h": 0.75e-6, "h2": 1.0e-6}
     yield {"stream": "corpus", "op": "couple", "R": 0.5, "d": 1.0001, "d2": 1.0002, "theta": 0.0, "is_y": False, "rot": True}
     yield {"stream": "corpus", "op": "couple", "R": 0.5, "d": 1.001, "d2": 2.0, "theta": 0.3, "is_y": True, "rot": False}
-    # F9 (open): Stimson-Jeffery factor for (nearly) touching beads; gap of one ulp answers -0.0389 in a millisecond
-    yield {"stream": "corpus", "op": "contact", "R": 1.0, "d": 2.0000000000000004}
-    yield {"stream": "corpus", "op": "contact", "R": 1.0, "d": 2.00001}  # fine: gap 1e-5 R
+    # F9 (open) lives in corpus/C20/F9_stimson_one_ulp_gap.json; a gap of 1e-5 R is fine:
+    yield {"stream": "corpus", "op": "contact", "R": 1.0, "d": 2.00001}
     yield {"stream": "corpus", "op": "couple", "R": 2.2, "d": 440.0, "d2": 441.0, "theta": 1.2, "is_y": False, "rot": False}
     yield {"stream": "corpus", "op": "salt", "T": 20.0, "m": 0.0, "p": 0.101325, "m2": 0.01, "T2": 20.5}
     yield {"stream": "corpus", "op": "salt", "T": 25.0, "m": 1.0, "p": 0.101325, "m2": 1.01, "T2": 25.5}
@@ -1082,7 +1086,7 @@ def grid(tier):
 
 def random_cases(tier, rng):
     q = tier == "quick"
-    N = 2500 if q else 60000
+    N = 6000 if q else 140000
     r = rng.fork("c20-random")
     for i in range(N):
         s = r.fork(i)
